@@ -830,6 +830,10 @@ class SymTimedelta:
         r = self.__eq__(o)
         return (not r) if _isinstance(r, bool) else ~r
 
+    def __bool__(self):
+        m = self.minutes
+        return (m != 0) if _isinstance(m, builtins.int) else Ctx.cur.decide(_zi(m) != 0)
+
     def __neg__(self):
         return SymTimedelta(-self.minutes)
 
@@ -942,6 +946,52 @@ class SymTz:
         return "SymTz(%r)" % (self.offset,)
 
 
+class Zone(_dt.tzinfo):
+    """a tzinfo whose offset depends on the date (zoneinfo, dateutil, pytz): utcoffset(None) is None, as the
+    datetime documentation prescribes for such classes; for any datetime it is the given whole-minute offset"""
+
+    def __init__(self, minutes):
+        self.minutes = minutes
+
+    def utcoffset(self, dt):
+        return None if dt is None else _dt.timedelta(minutes=self.minutes)
+
+    def dst(self, dt):
+        return None
+
+    def tzname(self, dt):
+        return "Zone%+d" % self.minutes
+
+    def __repr__(self):
+        return "Zone(%d)" % self.minutes
+
+
+class SymZone:
+    """Zone with a symbolic offset"""
+    __slots__ = ("offset",)
+
+    def __init__(self, offset):
+        self.offset = offset       # SymTimedelta
+
+    def utcoffset(self, dt):
+        return None if dt is None else self.offset
+
+    def dst(self, dt):
+        return None
+
+    def __eq__(self, o):
+        return self is o
+
+    def __hash__(self):
+        raise Unsupported("hash of SymZone")
+
+    def __concretize__(self, m):
+        return Zone(concretize(self.offset.minutes, m))
+
+    def __repr__(self):
+        return "SymZone(%r)" % (self.offset,)
+
+
 class _TimezoneShimMeta(type):
     def __instancecheck__(cls, x):
         return _isinstance(x, (_dt.timezone, SymTz))
@@ -964,11 +1014,15 @@ class TimezoneShim(metaclass=_TimezoneShimMeta):
         return _dt.timezone(offset) if name is None else _dt.timezone(offset, name)
 
 
-def _tz_offset(tz):
-    """utcoffset of a tzinfo-like: None | timedelta | SymTimedelta"""
+def _tz_offset(tz, dt=None):
+    """utcoffset of a tzinfo-like (for the datetime dt, None for a time): None | timedelta | SymTimedelta"""
     if tz is None:
         return None
-    return tz.utcoffset(None)
+    if _isinstance(tz, _dt.timezone):
+        return tz.utcoffset(None)          # fixed offset; the C type refuses a proxy as dt
+    if _isinstance(tz, Zone):
+        return None if dt is None else _dt.timedelta(minutes=tz.minutes)
+    return tz.utcoffset(dt)
 
 
 def _pad(v, w):
@@ -1023,7 +1077,7 @@ def _iso_time(t):
     us = t.microsecond
     if (us != 0) if _isinstance(us, builtins.int) else ctx.decide(_zi(us) != 0):
         out += ["."] + _pad(us, 6)
-    off = _tz_offset(t.tzinfo)
+    off = t.utcoffset()
     if off is not None:
         if _isinstance(off, _dt.timedelta):
             mins = builtins.int(off.total_seconds() // 60)
@@ -1168,7 +1222,7 @@ class SymDatetime(SymDate):
         return SymTime(self.hour, self.minute, self.second, self.microsecond, self.tzinfo)
 
     def utcoffset(self):
-        return _tz_offset(self.tzinfo)
+        return _tz_offset(self.tzinfo, self)
 
     def isoformat(self, sep="T", timespec="auto"):
         if timespec != "auto":
